@@ -174,7 +174,15 @@ def _make_api_traces(tier):
         return list(ex.map(A.run_history, [cfg] * len(hs), hs, chunksize=16))
 
 
-BUILDERS = {"simbatch": _make_sim_traces, "apibatch": _make_api_traces}
+def _make_bufapi_traces(tier):
+    from harness import api_buffer as B
+    from concurrent.futures import ProcessPoolExecutor
+    sc = B.scenarios(tier, seed())
+    with ProcessPoolExecutor(max_workers=NCPU) as ex:
+        return list(ex.map(B.run_history, sc, chunksize=8))
+
+
+BUILDERS = {"simbatch": _make_sim_traces, "apibatch": _make_api_traces, "bufapibatch": _make_bufapi_traces}
 
 
 def trace_batch(name, tier):
@@ -238,6 +246,107 @@ def trace_batch(name, tier):
     finally:
         fcntl.flock(lock, fcntl.LOCK_UN)
         lock.close()
+
+
+EQ_RE = re.compile(r'^<<"(EQ|EQDONE)", (\d+)(?:, "([^"]*)", (\d+))?>>$')
+
+
+def validate_pairs(path):
+    r = run_tlc("TraceEq", "SPECIFICATION ESpec\nCHECK_DEADLOCK FALSE\n", workers=1,
+                env={"TRACE_FILE": path}, heap="4g", serial_gc=True, timeout=7200)
+    if tlc_failed(r["out"]) or "Model checking completed" not in r["out"]:
+        raise MachineryError("TLC failed on pair file %s:\n%s" % (path, r["out"][-3000:]))
+    res, done = [], set()
+    for line in r["out"].splitlines():
+        m = EQ_RE.match(line.strip())
+        if not m:
+            continue
+        if m.group(1) == "EQDONE":
+            done.add(int(m.group(2)))
+        else:
+            res.append({"i": int(m.group(2)), "what": m.group(3), "at": int(m.group(4))})
+    return res, done
+
+
+def pair_batch(name, tier, builder):
+    """pairs of executions that must coincide, judged by TLC (spec/TraceEq.tla);
+    builder(tier, seed) -> (pairs, traces-for-TraceSim or [])"""
+    key = tree_key(name, tier, seed())
+    d = os.path.join(CACHE, key)
+    os.makedirs(CACHE, exist_ok=True)
+    lock = open(os.path.join(CACHE, key + ".lock"), "w")
+    fcntl.flock(lock, fcntl.LOCK_EX)
+    try:
+        done = os.path.join(d, "verdicts.json")
+        if os.path.exists(done):
+            with open(done) as f:
+                return json.load(f), d
+        shutil.rmtree(d, ignore_errors=True)
+        os.makedirs(d)
+        if VERIF not in sys.path:
+            sys.path.insert(0, VERIF)
+        from harness import batch
+        t0 = time.time()
+        pairs, traces = builder(tier, seed())
+        t_run = time.time() - t0
+        n = len(pairs)
+        nsh = min(NCPU, max(1, n))
+        paths = []
+        for sidx in range(nsh):
+            idxs = list(range(sidx, n, nsh))
+            pth = os.path.join(d, f"pairs_{sidx:02d}.json")
+            with open(pth, "w") as f:
+                json.dump({"pairs": [pairs[i] for i in idxs], "gids": idxs}, f)
+            paths.append((pth, idxs))
+        t1 = time.time()
+        with ThreadPoolExecutor(max_workers=NCPU) as ex:
+            results = list(ex.map(lambda pi: validate_pairs(pi[0]), paths))
+        verdicts = []
+        for (pth, idxs), (res, dn) in zip(paths, results):
+            if dn != set(range(1, len(idxs) + 1)):
+                raise MachineryError("TLC did not judge every pair of %s" % pth)
+            for v in res:
+                v["gid"] = idxs[v["i"] - 1]
+                v["file"] = os.path.basename(pth)
+                verdicts.append(v)
+        out = {"npairs": n, "verdicts": verdicts, "t_run": t_run, "t_tlc": time.time() - t1,
+               "what": [p["what"] if not isinstance(p["what"].get("cfg"), dict) else
+                        {k: v for k, v in p["what"].items() if k != "cfg"} | {"alg": p["what"]["cfg"]["alg"]}
+                        for p in pairs],
+               "events": sum(len(p["b"]["states"]) for p in pairs)}
+        tv = None
+        if traces:
+            tpaths = batch.write_shards(traces, os.path.join(d, "tr"), nshards=NCPU)
+            with ThreadPoolExecutor(max_workers=NCPU) as ex:
+                tres = list(ex.map(validate_shard, tpaths))
+            tv = []
+            steps = 0
+            for pth, r in zip(tpaths, tres):
+                with open(pth) as f:
+                    gids = json.load(f)["gids"]
+                vs = parse_verdicts(r["out"])
+                if {v["tid"] for v in vs if v["kind"] == "DONE"} != set(range(1, len(gids) + 1)):
+                    raise MachineryError("TLC did not consume every trace of %s" % pth)
+                for v in vs:
+                    if v["kind"] == "DONE":
+                        steps += v["l"]
+                    else:
+                        v["gid"] = gids[v["tid"] - 1]
+                        tv.append(v)
+            out["trace_verdicts"] = tv
+            out["trace_steps"] = steps
+            out["ntraces"] = len(traces)
+        with open(done, "w") as f:
+            json.dump(out, f)
+        return out, d
+    finally:
+        fcntl.flock(lock, fcntl.LOCK_UN)
+        lock.close()
+
+
+def load_pair(d, v):
+    with open(os.path.join(d, v["file"])) as f:
+        return json.load(f)["pairs"][v["i"] - 1]
 
 
 def sim_batch(tier):
